@@ -21,10 +21,11 @@
 (*   BPersist  cache put "_remoteHeads" := Heads(log)                       *)
 (*   BEmit  EventReplicated(B): the batch is reported                       *)
 (***************************************************************************)
-EXTENDS Naturals, Sequences, FiniteSets, FiniteSetsExt
+EXTENDS Naturals, Sequences, FiniteSets, FiniteSetsExt, TLC
 
 CONSTANTS G,                 \* writer goroutines (one write each)
-          Remote,            \* remote entry ids (a chain r1 <- r2 <- ..., given as a sequence)
+          Remote,            \* remote entry ids in the order they are delivered (a sequence)
+          RemotePar,         \* remote entry id -> its parents (two remote writers: concurrent branches)
           SerialisedPersist
 
 VARIABLES par,       \* entry id -> set of parent ids (next links); DOMAIN par = entries ever created
@@ -52,7 +53,7 @@ AncIn(S, B) == LET S0 == S \cap B
                IN  IF N = S0 THEN S0 ELSE AncIn(N, B)
 Recoverable == AncIn(cacheL \cup cacheR, blocks)
 
-Init == /\ par = [r \in RemoteIds |-> IF r = Remote[1] THEN {} ELSE {Remote[CHOOSE i \in DOMAIN Remote : Remote[i+1] = r]}]
+Init == /\ par = [r \in RemoteIds |-> RemotePar[r]]
         /\ log = {} /\ blocks = {} /\ cacheL = {} /\ cacheR = {} /\ idx = {}
         /\ pc = [g \in G |-> "idle"] /\ cur = [g \in G |-> 0] /\ wlock = 0
         /\ rnext = 0 /\ bpc = "none" /\ batch = {}
